@@ -231,15 +231,15 @@ def _allowed_singular(spec, body, p_local):
     return False
 
 
-def _offset_class(off, t_rel, identity, on_body=False):
+def _offset_class(off, t_rel, identity, on_body=False, rnd=2e-15):
     """by the actual distance t (relative to L) of the observer from its nearest special set, prolongations included:
     exact_on_body / exact_prolongation: on the set in an identity pose (the library sees the same coordinates), on the
     body's own surface or on the prolongation of one of its special sets; tiny: 0 < t <= 1e-7 (also: on the set
-    through a generic pose, i.e. within rounding); on_body_within_rounding: on the body's own surface to 1e-14 L and not tiny from any other set; small: 1e-7 < t; far: ladder value >= 1e3 L"""
+    through a generic pose, i.e. within rounding); on_body_within_rounding: on the body's own surface to 2e-15 of the library's normalisation length and not tiny from any other set; small: 1e-7 < t; far: ladder value >= 1e3 L"""
     if off == "far":
         return "far"
     ts = t_rel if isinstance(t_rel, list) else [t_rel]
-    if on_body and all(t <= 1e-14 or t > 1e-7 for t in ts) and any(0.0 < t <= 1e-14 for t in ts):
+    if on_body and all(t <= rnd or t > 1e-7 for t in ts) and any(0.0 < t <= rnd for t in ts):
         # on the body's own surface within rounding (a corner of a CylinderSegment has no exact floating-point
         # coordinates) and not a tiny-but-resolvable distance from any special set: the library's surface masks
         # (relative 1e-12..1e-15) are documented to return 0 there
@@ -251,6 +251,13 @@ def _offset_class(off, t_rel, identity, on_body=False):
             return "tiny"
         return "exact_on_body" if on_body is True else "exact_prolongation"
     return "small"
+
+
+def _rnd(body):
+    """'within rounding' relative to L: 2e-15 of the length the library itself normalises by (a CylinderSegment: r2; its
+    surface masks accept 1e-14 of that), so that the class stays inside what the library documents as 'on the surface'"""
+    ref = body.r2 if isinstance(body, geom.CylSeg) and body.r2 > 0 else body.L
+    return 2e-15 * ref / body.L
 
 
 def run_case(case, ctx):
@@ -311,7 +318,8 @@ def run_case(case, ctx):
                 out.append(Violation({**sig0, "sub": "nonfinite", "field": X if X in "BH" else "JM", "base": o["base"],
                                       "offset_class": _offset_class(o["offset"], [float(v[0]) / body.L for v in geom.special_dist(body, loc[i][None], all_sets=True).values()], identity,
                                                                     True if float(body.dist(loc[i][None])[0]) == 0.0 else
-                                                                    ("rounded" if float(body.dist(loc[i][None])[0]) <= 1e-14 * body.L else False)),
+                                                                    ("rounded" if float(body.dist(loc[i][None])[0]) <= _rnd(body) * body.L else False),
+                                                                    _rnd(body)),
                                       "near": tname[0]},
                                      f"{cls} get{X} = {F.reshape(n, 3)[i].tolist()} at local {loc[i].tolist()} (base {o['base']} {o.get('detail', '')}, "
                                      f"offset {o['offset']}, nearest special set {tname[0]} at {float(tsp[0]) / body.L:.3g} L, batch {n})",
